@@ -157,7 +157,7 @@ func (c *Contracts) SolVerify(vm *SolVM, set []common.Address) error {
 	if len(set) == 0 {
 		return &Abort{Msg: "invalid guardian set"}
 	}
-	q, err := EvalInt(c.Solidity.Quorum.Expr, map[string]*big.Int{c.Solidity.Quorum.Param: big.NewInt(int64(len(set)))})
+	q, err := c.SolQuorum(len(set))
 	if err != nil {
 		return err
 	}
